@@ -15,27 +15,27 @@ CLAIMS = {
          "Every plain fragment that can reach an attribute value is attribute-escaped exactly once (by the writer for plain values, at the merge site for values merged into HTML()); the value normalisation table and the seven-character escape map are derived from the source and checked."),
  "C04": ("escape typestate (trusted fragments never escaped) + abstract interpretation of HTML.__add__/__radd__ over operand kinds", "4/C04",
          "HTML() children/attribute values, _repr_html_ output and script/style text are emitted unescaped on every path; HTML concatenation always yields HTML() with trusted operands verbatim and plain operands text-escaped once in operand order; no path escapes trusted or already-escaped content."),
- "C05": ("extracted sibling transducer + element frame (Engine A); product walk over reachable layout states checking no layout token between non-block neighbours; ownership/effect analysis: no read-only operation writes Tag.add_ws of a pre-existing tag, rebuilt tags keep the flag", "4/C05-C07",
+ "C05": ("extracted sibling transducer + element frame (Engine A); product walk over reachable layout states checking no layout token between non-block neighbours; ownership/effect analysis: no read-only operation writes Tag.add_ws of a pre-existing tag, rebuilt tags keep the flag; content tokens of every transducer row carry no further operation (C05.text)", "4/C05-C07",
          "For every reachable layout state, a non-block child next to a non-block sibling emits no EOL/INDENT and is rendered flat; inline frames contain no layout token; every layout token is adjacent to a block boundary. Induction over the subtree gives the property for all trees incl. block-in-inline."),
  "C06": ("extracted sibling transducer + element frame compared with a specification renderer by product construction over all reachable (impl state, spec state) pairs", "4/C05-C07",
          "The extracted transducer and frames equal the specification written from the documented rule on every reachable state pair and every frame scenario, which by induction fixes the layout of every validly nested tree, every indent and eol."),
- "C07": ("extracted sibling transducer + element frame; metadata rows emit nothing and keep the state; frames invariant under number/position of metadata children", "4/C05-C07",
+ "C07": ("extracted sibling transducer + element frame; metadata rows emit nothing and keep the state; frames invariant under number/position of metadata children; path-order rule: the MetadataNode test precedes every Protocol test on metadata rows (C07.order)", "4/C05-C07",
          "Metadata children are invisible to the three places that decide markup: the sibling loop (no emission, no state change in any reachable state), the child counting of the frame (same tokens for n_meta in {0,1,>=2}, metadata first or not), hence to the rendered string."),
  "C19": ("exhaustive AST check of all 113+66 generated wrappers against the generator's folded inline table; Engine A on Tag.__init__ for the _add_ws type guard", "4/C19",
          "All generated functions and the 17 re-exports are enumerated: element-name constant, forwarding of *args/**kwargs/_add_ws, default == (name not in _INLINE_TAG_NAMES); Tag.__init__ rejects every non-bool kind before storing."),
  "C10": ("abstract interpretation of _resolve_dependencies (3-ordering table), get_dependencies (per-kind collection table) and HTMLDependency.__init__ (validation-before-store over argument kinds)", "4/C10",
          "Resolution replaces iff the new Version is strictly greater than the kept one (compared as Version objects), keyed by name, result in first-occurrence order; collection is pre-order with dedup only at the top; every script/stylesheet/meta form is normalised to a list and validated for its required keys before it is stored; non-dict/keyless sources are rejected."),
- "C14": ("taint-with-sanitiser over TagList's effective mutator set (own + UserList parsed from the stdlib) via Engine A effect logs; dispatch tables of the normaliser, flatten, is_tag_node, is_tag_child", "4/C14",
+ "C14": ("taint-with-sanitiser over TagList's effective mutator set (own + UserList parsed from the stdlib) via Engine A effect logs; dispatch tables of the normaliser, flatten, is_tag_node, is_tag_child; must-pass-through: every normal path of the flatten worker iterates its argument whatever its extra arguments hold (C14.reach)", "4/C14",
          "Every listed operation stores only results of the normaliser (or re-enters the checked constructor); normalisation precedes every storage write in each mutator (failure atomicity); the per-kind tables of the normaliser and of flatten are the documented ones; is_tag_child accepts every accepted kind and is_tag_node every stored kind."),
  "C15": ("abstract interpretation of TagAttrDict (value dispatch table, name pipeline evaluated on the property's raw-name shapes, per-path merge table of update, argument order, single final dict.update), Tag.__init__ partition and consolidate_attrs forwarding", "4/C15",
          "Names: one trailing underscore stripped then underscores to hyphens; values: None/False dropped, True empty, numbers as text; repeated names joined existing+' '+new in argument order into a per-call dict that is written once (so later updates replace); Tag.__init__ and consolidate_attrs split arguments by the same predicate."),
- "C16": ("abstract interpretation of add_class/remove_class/has_class/add_style (effect traces with TagAttrDict opaque) and of css()'s loop body; key pipeline evaluated on sample property names", "4/C16",
+ "C16": ("abstract interpretation of add_class/remove_class/has_class/add_style (effect traces with TagAttrDict opaque) and of css()'s loop body; key pipeline of each loop-body path evaluated on the sample property names that take the path", "4/C16",
          "Structural part only: helpers return self; add_style's semicolon test is on every accepting path and precedes the write; (new, old) order iff prepend; has_class is membership in split(); remove_class filters split() tokens by != and re-joins or pops; css appends one declaration per non-None argument. The token-set algebra over histories is not decided."),
  "C17": ("effect-order analysis (Engine A traces) of Tag.__enter__/__exit__ and dispatch table of the display-hook wrapper (both truth values of the saved hook explored; the _repr_html_ test precedes any hand-over of a plain value)", "4/C17",
          "On every path of __exit__ the saved hook is restored before foreign code runs and the tag is handed to it exactly once; __enter__ raises before writing anything when the tag is active and saves the hook before replacing it; wrapper table per value kind. Nesting follows by induction on depth."),
- "C08": ("ownership/effect analysis (mutation sites vs. borrowed objects, per-function summaries to a fix-point, copy semantics read from each class's __copy__) + Engine A tables for tagify, equality coverage and delegation", "4/C08",
+ "C08": ("ownership/effect analysis (mutation sites vs. borrowed objects, per-function summaries to a fix-point, copy semantics read from each class's __copy__) + Engine A tables for tagify, equality coverage (loop over the fields or whole-dictionary comparison) and delegation; pairing rule for transient fields, class-level defaults included", "4/C08",
          "No read-only entry point has, on any call path, a mutation site whose target existed before the call; tagify returns a new object with new containers and replaces every tagifiable/metadata child; render uses the tagified copy; repr/_repr_html_/str agree; == rejects other kinds and compares every instance field; the transient hook field is reset by __exit__. Value-level equality of copies is not decided."),
- "C09": ("splice-safety idiom check of TagList.tagify + Engine A loop-body table + extracted sibling transducer (raise rows) + effect traces of HTMLDocument._gen_html_tag_tree", "4/C09",
+ "C09": ("splice-safety idiom check of TagList.tagify + Engine A loop-body table + extracted sibling transducer (raise rows) + effect traces of HTMLDocument._gen_html_tag_tree; must-pass-through: every normal path of TagList.tagify enters the expansion loop unless the receiver is empty (C09.reach)", "4/C09",
          "Splicing cannot skip or revisit children (descending index, fresh list, or exact advance); a TagList expansion replaces exactly its element; un-tagified objects without _repr_html_ raise and emit nothing on every layout state; document shape decisions and head hoisting operate on tagified content."),
  "C11": ("effect-trace analysis (Engine A, callees opaque) of HTMLDocument.render / _gen_html_tag_tree / _hoist_head_content / as_html_tags against obligations R1-R6", "4/C11",
          "Structural obligations R1-R5 of document assembly hold on every path (doctype, three-case table with both settings forwarded, head search/insert, meta charset first, listing iff non-empty, as_html_tags over the same list in order, meta/link/script/head order); R6 (listed = hoisted = returned) is a recorded known finding. The complete document string is not decided."),
